@@ -41,6 +41,7 @@ import (
 const (
 	faultT     = 200 * time.Millisecond // request time-out configured for the adaptation
 	faultSlack = 1500 * time.Millisecond
+	stallKiB   = 512 // annotation size of the request sent to a peer that stopped reading
 )
 
 type fPlugin struct {
@@ -76,6 +77,9 @@ type faultCase struct {
 	Obs           fObs              `json:"obs"`
 	Obs2          fObs              `json:"obs2"`
 	FaultyAfter   bool              `json:"faulty_handled_after"`
+	ClockSuspect  bool              `json:"clock_suspect,omitempty"`   // a healthy plugin's call ran into the 200 ms time-out: load, re-run alone
+	ReleasedByCut bool              `json:"released_by_cut,omitempty"` // stall: the request returned only after the harness cut the connection
+	BoundMs       int64             `json:"bound_ms,omitempty"`
 	Reruns        int               `json:"latency_reruns,omitempty"`
 	Signature     map[string]string `json:"signature,omitempty"`
 }
@@ -207,7 +211,7 @@ func runFault(c *hx.Ctx, n int, sp faultSpec) (*faultCase, error) {
 		sock, raw := e.sock, false
 		if i == sp.pos {
 			switch sp.kind {
-			case "cut", "inject":
+			case "cut", "inject", "stall":
 				px, err = newProxy(filepath.Join(e.dir, "px.sock"), e.sock)
 				if err != nil {
 					return nil, err
@@ -325,6 +329,10 @@ func runFault(c *hx.Ctx, n int, sp faultSpec) (*faultCase, error) {
 		case "after":
 			cs.What = "plugin closes its end right after the request"
 		}
+	case "stall":
+		cs.Fault = "stall"
+		px.stall()
+		cs.What = fmt.Sprintf("the plugin's peer stops reading its socket; the request carries %d KiB of annotations (more than the socket buffers hold)", stallKiB)
 	case "hang":
 		cs.Fault = "hang"
 		if sp.variant == "ctx" {
@@ -358,14 +366,53 @@ func runFault(c *hx.Ctx, n int, sp faultSpec) (*faultCase, error) {
 	}
 
 	// ---- the faulted request
-	res1 := e.fire(mkRequest(2, sp.ev))
+	var res1 reqResult
+	if sp.kind == "stall" {
+		// the request may never return on its own: give it the bound, then recover by cutting the connection
+		bound := time.Duration(len(cs.Plugins))*faultT + faultSlack
+		cs.BoundMs = bound.Milliseconds()
+		rq := mkRequest(2, sp.ev)
+		rq.Big = stallKiB
+		done := make(chan reqResult, 1)
+		t0 := time.Now()
+		go func() { done <- e.fire(rq) }()
+		select {
+		case res1 = <-done:
+		case <-time.After(bound + 300*time.Millisecond):
+			cs.ReleasedByCut = true
+			px.cut()
+			select {
+			case res1 = <-done:
+			case <-time.After(20 * time.Second):
+				// the adaptation is wedged for good: nothing more can be asked of it
+				cs.LatMs = time.Since(t0).Milliseconds()
+				cs.Obs = fObs{Err: "the request was still blocked 20 s after the connection had been cut", Tokens: []string{}, Handled: handledIn(plugs, 2)}
+				cs.Obs2 = fObs{Err: "not issued: the adaptation is blocked", Tokens: []string{}, Handled: []int{}}
+				return cs, nil
+			}
+		}
+		res1.Dur = time.Since(t0)
+	} else {
+		res1 = e.fire(mkRequest(2, sp.ev))
+	}
 	cs.LatMs = res1.Dur.Milliseconds()
 	cs.Obs = mkObs(res1, handledIn(plugs, 2))
-	cs.Call, cs.ExtraCalls = pickCall(e.takeCallErrs(), method)
+	calls1 := e.takeCallErrs()
+	cs.Call, cs.ExtraCalls = pickCall(calls1, method)
+	deadlines := 0
+	for _, cl := range calls1 {
+		if cl.Method == method && cl.Class == "context.DeadlineExceeded" {
+			deadlines++
+		}
+	}
 	if res1.Foreign {
 		cs.Obs.Err = "response carries ids of another request; " + cs.Obs.Err
 	}
 	switch sp.kind {
+	case "stall":
+		if !px.isCut() {
+			px.cut() // the request came back in time (a tree with a write deadline): the stopped peer goes away now
+		}
 	case "cut", "inject":
 		if !px.isCut() {
 			// sizes differed from the probe's: the armed offset was not reached; cut now (= close after the request)
@@ -385,9 +432,20 @@ func runFault(c *hx.Ctx, n int, sp faultSpec) (*faultCase, error) {
 	res2 := e.fire(mkRequest(3, sp.ev))
 	h2 := handledIn(plugs, 3)
 	cs.Obs2 = mkObs(res2, h2)
-	ac, extra := pickCall(e.takeCallErrs(), method)
+	calls2 := e.takeCallErrs()
+	ac, extra := pickCall(calls2, method)
 	cs.AfterCall = ac
 	cs.ExtraCalls += extra
+	for _, cl := range calls2 {
+		if cl.Method == method && cl.Class == "context.DeadlineExceeded" {
+			deadlines++
+		}
+	}
+	// only a hanging handler legitimately runs into the time-out, once; any other call that did was
+	// slowed down by the machine (the time-out is 1000 x the normal latency), not by the fault
+	if expected := map[bool]int{true: 1, false: 0}[sp.kind == "hang"]; deadlines > expected {
+		cs.ClockSuspect = true
+	}
 	for _, id := range h2 {
 		if id == cs.Faulty {
 			cs.FaultyAfter = true
@@ -464,6 +522,8 @@ func faultOracle(cs *faultCase) (string, bool) {
 		return fmt.Sprintf("the follow-up request invoked %v, expected %v", o2.Handled, healthy), false
 	case cs.FaultyAfter:
 		return "the failed plugin received a further request", false
+	case cs.ReleasedByCut:
+		return fmt.Sprintf("the request was still blocked after %d x %d ms + %d ms and returned (after %d ms) only when the harness cut the plugin's connection", len(cs.Plugins), cs.TMs, cs.SlackMs, cs.LatMs), false
 	case cs.LatMs > int64(len(cs.Plugins))*cs.TMs+cs.SlackMs:
 		return fmt.Sprintf("the request took %d ms, more than %d x %d ms + %d ms", cs.LatMs, len(cs.Plugins), cs.TMs, cs.SlackMs), true
 	}
@@ -507,6 +567,8 @@ func faultCaseTerm(cs *faultCase) string {
 		k = "(FVeto " + coqfmt.Str(cs.Msg) + ")"
 	case "transport":
 		k = "(FTransport " + coqfmt.Bool(cs.ReplyComplete) + ")"
+	case "stall":
+		k = "FStall"
 	}
 	return fmt.Sprintf("{| fc_plugins := %s; fc_faulty := %s; fc_ev := %s; fc_fault := %s; fc_call := %s; fc_after_call := %s; fc_T := %s; fc_lat := %s; fc_slack := %s; fc_obs := %s; fc_obs2 := %s; fc_faulty_after := %s |}",
 		coqfmt.List(ps), coqfmt.N(uint64(cs.Faulty)), coqfmt.Z(int64(cs.Ev)), k, callTerm(cs.Call), callTerm(cs.AfterCall),
@@ -658,6 +720,22 @@ func driveFaults(c *hx.Ctx) error {
 			specs = append(specs, faultSpec{ev: ev, pos: pos, kind: "veto"})
 		}
 	}
+	// a peer that stops reading while a request larger than the socket buffers is written
+	// (findings/C07-stalled-reader-blocks-write.md): each case costs the whole bound
+	stalls := []faultSpec{
+		{ev: api.Event_CREATE_CONTAINER, pos: 1, kind: "stall"},
+		{ev: api.Event_UPDATE_CONTAINER, pos: 0, kind: "stall"},
+		{ev: api.Event_RUN_POD_SANDBOX, pos: 2, kind: "stall"},
+	}
+	if !c.Quick() {
+		stalls = append(stalls,
+			faultSpec{ev: api.Event_STOP_CONTAINER, pos: 2, kind: "stall"},
+			faultSpec{ev: api.Event_UPDATE_POD_SANDBOX, pos: 1, kind: "stall"},
+			faultSpec{ev: api.Event_REMOVE_CONTAINER, pos: 0, kind: "stall"},
+			faultSpec{ev: api.Event_POST_CREATE_CONTAINER, pos: 1, kind: "stall"},
+			faultSpec{ev: api.Event_CREATE_CONTAINER, pos: 0, kind: "stall"})
+	}
+	nStall := len(stalls)
 	if tn, _ := strconv.Atoi(os.Getenv("VERIF_FAULT_TIMED")); tn > 0 { // experiments: only the timed mid-frame cuts
 		specs = nil
 		for i := 0; i < tn; i++ {
@@ -707,6 +785,32 @@ func driveFaults(c *hx.Ctx) error {
 		}
 	}
 
+	// the stalled-reader cases run after the pool, only among themselves: their half-MiB requests to the
+	// healthy plugins must not compete with a thousand other cases for the 200 ms time-out
+	if os.Getenv("VERIF_FAULT_TIMED") == "" {
+		sres := make([]*faultCase, nStall)
+		serr := make([]error, nStall)
+		par := c.Pick(3, 2) // the thorough tier runs under the race detector
+		for lo := 0; lo < nStall; lo += par {
+			var sg sync.WaitGroup
+			for k := lo; k < lo+par && k < nStall; k++ {
+				sg.Add(1)
+				go func(k int) {
+					defer sg.Done()
+					sres[k], serr[k] = runFault(c, len(specs)+k, stalls[k])
+				}(k)
+			}
+			sg.Wait()
+		}
+		for k := range stalls {
+			if serr[k] != nil {
+				return serr[k]
+			}
+			results = append(results, sres[k])
+			specs = append(specs, stalls[k])
+		}
+	}
+
 	// the late-status race of a handler that honours its context (findings/C07-deadline-status-not-fatal.md)
 	// is hit in 5-15 % of the trials: keep trying (bounded) so that a tree that has the defect shows it on every run
 	hit := func() bool {
@@ -745,7 +849,7 @@ func driveFaults(c *hx.Ctx) error {
 	classes := map[string]int{}
 	for i, cs := range results {
 		why, timingOnly := faultOracle(cs)
-		for k := 0; k < 3 && why != "" && timingOnly; k++ {
+		for k := 0; k < 3 && why != "" && (timingOnly || cs.ClockSuspect); k++ {
 			// a bound on wall-clock time is never judged on one sample: re-run alone
 			again, err := runFault(c, i, specs[i])
 			if err != nil {
@@ -753,7 +857,7 @@ func driveFaults(c *hx.Ctx) error {
 			}
 			again.Reruns = k + 1
 			w2, t2 := faultOracle(again)
-			if w2 == "" || !t2 {
+			if w2 == "" || !(t2 || again.ClockSuspect) {
 				cs, why, timingOnly = again, w2, t2
 				results[i] = cs
 			}
@@ -765,6 +869,10 @@ func driveFaults(c *hx.Ctx) error {
 			case cs.Call.Class == "io.ErrUnexpectedEOF" && cs.Fault == "transport":
 				cs.Signature = map[string]string{"finding": "unexpected-eof-not-fatal"}
 			}
+		}
+		if cs.Fault == "stall" && cs.ReleasedByCut && cs.ExtraCalls == 0 && strings.HasPrefix(why, "the request was still blocked") {
+			// exactly the recorded shape: blocked in the write beyond the bound, served by the others once the connection is cut
+			cs.Signature = map[string]string{"finding": "stalled-reader-blocks-write"}
 		}
 		sh.Add(faultCaseTerm(cs), cs)
 		if why != "" {
@@ -791,6 +899,6 @@ func driveFaults(c *hx.Ctx) error {
 		c.Count("faults.call_result."+k, v)
 	}
 	c.Stats.Exhaustive = !c.Quick()
-	c.Stats.Rule = "faults: per case a fresh Adaptation (request time-out 200 ms) with plugins 10-A, 20-B, 30-C; for each of the thirteen entry points x each position of the faulty plugin: trunk cut by the frame-parsing proxy after n bytes in either direction (quick: n in {0,1,7,8,9,17,18,19,end-1,end} = the boundaries of the multiplexer header, the ttrpc header and the message, +-1; thorough: every n of the exchange), trunk ending in the middle of a frame (injected partial frame) at the start/end of the request or while idle, peer close before (unnoticed / noticed / orderly stop), inside the handler and right after the call, handler sleeping 2.5 x the time-out or returning its expired context's error, handler returning an error; each case = probe + faulted + follow-up request; every case is non-trivial."
+	c.Stats.Rule = "faults: per case a fresh Adaptation (request time-out 200 ms) with plugins 10-A, 20-B, 30-C; for each of the thirteen entry points x each position of the faulty plugin: trunk cut by the frame-parsing proxy after n bytes in either direction (quick: n in {0,1,7,8,9,17,18,19,end-1,end} = the boundaries of the multiplexer header, the ttrpc header and the message, +-1; thorough: every n of the exchange), trunk ending in the middle of a frame (injected partial frame) at the start/end of the request or while idle, peer close before (unnoticed / noticed / orderly stop), inside the handler and right after the call, handler sleeping 2.5 x the time-out or returning its expired context's error, handler returning an error; peer that stops reading while a 512 KiB request is written (recovered by cutting the connection after the bound); each case = probe + faulted + follow-up request; every case is non-trivial."
 	return nil
 }
